@@ -463,6 +463,15 @@ def extract():
     out.append(emit_set("function_is_aggregate", "Function", agg))
     out.append(emit_set("function_is_numeric_extra", "Function", num))
     out.append(emit_set("function_is_boolean", "Function", boo))
+    # parser.rs: `let takes_no_arguments = matches!(function, Function::A | Function::B | ...);`
+    pz = strip_cfg(load("src/parser.rs"))
+    nullary = []
+    for i in range(len(pz) - 3):
+        if pz[i] == ("ident", "takes_no_arguments") and pz[i + 1] == ("p", "=") and pz[i + 2] == ("ident", "matches!"):
+            e = match_close(pz, i + 3)
+            nullary = matches_set(pz[i + 3:e], "Function", "takes_no_arguments", allow_empty=True)
+            break
+    out.append(emit_set("function_takes_no_arguments", "Function", nullary))
     info["functions"] = len(funcs)
     info["function_aliases"] = len(gtab)
 
